@@ -137,11 +137,12 @@ BREAK = [
     ("reset-late", ["C12"], P, "        self._reset_classes()\n\n        # Update the class counter\n        self.counter = PEP.counter\n        PEP.counter += 1\n",
      "        # Update the class counter\n        self.counter = PEP.counter\n        PEP.counter += 1\n        self._reset_classes()\n", "R-RESET"),
     ("fallback-under-verbose", ["C12"], P, "                      ' switching to cvxpy\\033[0m'.format(wrapper_name))\n            wrapper_name = \"cvxpy\"", "                      ' switching to cvxpy\\033[0m'.format(wrapper_name))\n                wrapper_name = \"cvxpy\"", "R-VERBOSE"),
-    ("point-eval-lru-cache", ["C12"], PT, "    def eval(self):", "    from functools import lru_cache as _memoised\n\n    @_memoised(maxsize=None)\n    def eval(self):", "R-RESET"),
+    ("point-eval-lru-cache", ["C12", "C13"], PT, "    def eval(self):", "    from functools import lru_cache as _memoised\n\n    @_memoised(maxsize=None)\n    def eval(self):", "R-RESET"),
     ("translator-memo-reads-counter", ["C12"], TR, "def expression_to_matrices(expression):",
      "def _empty_gram():\n    return np.zeros((Point.counter, Point.counter))\n\n\n_cached_empty_gram = __import__('functools').lru_cache(maxsize=1)(_empty_gram)\n\n\ndef expression_to_matrices(expression):", "R-RESET"),
     ("default-list-written", ["C12"], P, "    def add_psd_matrix(self, matrix_of_expressions, name=None):", "    def add_psd_matrix(self, matrix_of_expressions, name=None, _log=[]):\n        _log.append(name)", "R-RESET"),
     # ---- re-solve (C13)
+    ("expression-value-cached-property", ["C13"], EX, "    def eval(self):", "    @__import__('functools').cached_property\n    def value(self):\n        return self._value\n\n    def eval(self):", "R-MEMO"),
     ("class-psd-not-reset", ["C13", "C05"], F, "        self.list_of_class_psd = list()\n        self.add_class_constraints()", "        self.add_class_constraints()", "R-ACCUM"),
     ("tracking-list-not-reset", ["C13"], P, "        self._list_of_constraints_sent_to_wrapper = list()\n        self._list_of_psd_sent_to_wrapper = list()\n\n        # Defining performance metrics", "        self._list_of_psd_sent_to_wrapper = list()\n\n        # Defining performance metrics", "R-FRESH"),
     ("expression-memo", ["C13"], EX, "if self._value is None or not self._is_leaf:", "if self._value is None:", "R-MEMO"),
